@@ -148,11 +148,6 @@ theorem uniqueNames_role_forall (p : Problem) (role' : PRole) (Q : Formula → P
   · rintro h a' ⟨i, a, hi, rfl⟩ hr
     exact h a ((mem_indexFrom (k := 0)).mpr ⟨i, hi⟩) hr
 
-/-- the problem of one direction before symbol renaming and naming -/
-def directionProblem0 (name : String) (tr ax cj : Theory) (axPre cjPre : String) : Problem :=
-  (((⟨name, []⟩ : Problem).addTheory tr "transition_axiom_" .axiom).addTheory ax axPre .axiom).addTheory
-    cj cjPre .conjecture
-
 theorem directionProblem_eq (name : String) (tr ax cj : Theory) (axPre cjPre : String) :
     directionProblem name tr ax cj axPre cjPre =
       (directionProblem0 name tr ax cj axPre cjPre).renameConflictingSymbols.uniqueNames := rfl
